@@ -233,6 +233,43 @@ async fn run_case(sock: PathBuf, ops: Vec<String>) -> Vec<String> {
                             }
                         }
                     }
+                    "race" => {
+                        // race <n> x<key> j<value> <version>: n fresh connections send the same cSet at the same moment, each from a
+                        // task of its own on the multi-threaded runtime; what comes back is counted (who wins is the scheduler's business)
+                        let n: usize = t[1].parse().expect("n");
+                        let line = json!({"cSet": {"transactionId": 1, "key": unhex(t[2]), "value": json_of(t[3]), "version": t[4].parse::<u64>().expect("ver")}}).to_string();
+                        let barrier = std::sync::Arc::new(tokio::sync::Barrier::new(n));
+                        let mut tasks = vec![];
+                        for _ in 0..n {
+                            let sock = sock.clone();
+                            let line = line.clone();
+                            let barrier = barrier.clone();
+                            tasks.push(tokio::spawn(async move {
+                                let stream = UnixStream::connect(&sock).await.ok()?;
+                                let (r, mut w) = stream.into_split();
+                                let mut rd = BufReader::new(r).lines();
+                                let _welcome = tokio::time::timeout(Duration::from_secs(3), rd.next_line()).await.ok()?.ok()?;
+                                barrier.wait().await;
+                                w.write_all(line.as_bytes()).await.ok()?;
+                                w.write_all(b"\n").await.ok()?;
+                                w.flush().await.ok()?;
+                                loop {
+                                    let l = tokio::time::timeout(Duration::from_secs(5), rd.next_line()).await.ok()?.ok()??;
+                                    let v: Value = serde_json::from_str(&l).ok()?;
+                                    if let Some(a) = v.get("ack") { if a["transactionId"] == json!(1) { return Some("ack".to_owned()); } }
+                                    if let Some(e) = v.get("err") { if e["transactionId"] == json!(1) { return Some(format!("err{}", e["errorCode"])); } }
+                                }
+                            }));
+                        }
+                        let mut res: Vec<String> = vec![];
+                        for tk in tasks {
+                            res.push(tk.await.ok().flatten().unwrap_or_else(|| "noanswer".to_owned()));
+                        }
+                        res.sort();
+                        out.push(format!("race:{}", res.join(",")));
+                        // let the server finish the session ends before the next step
+                        tokio::time::sleep(Duration::from_millis(30)).await;
+                    }
                     other => panic!("unknown op {other}"),
                 }
                 settle(&mut conns, &cids, &mut out).await;
